@@ -258,17 +258,23 @@ int main(int argc, char* const* argv)
     }
 
     CScript script;
-    if (script_str) {
-        if (instance.parse_script(script_str)) {
-            if (verbose) btc_logf("valid script\n");
-        } else {
-            fprintf(stderr, "invalid script\n");
-            return 1;
+    try {
+        if (script_str) {
+            if (instance.parse_script(script_str)) {
+                if (verbose) btc_logf("valid script\n");
+            } else {
+                fprintf(stderr, "invalid script\n");
+                return 1;
+            }
+            free(script_str);
         }
-        free(script_str);
-    }
 
-    instance.parse_stack_args(ca.l);
+        instance.parse_stack_args(ca.l);
+    } catch (std::exception const& ex) {
+        // inline functions in the script or stack arguments report bad input by throwing
+        fprintf(stderr, "error parsing script or stack arguments: %s\n", ex.what());
+        return 1;
+    }
 
     if (instance.txin && instance.tx && ca.l.size() == 0 && instance.script.size() == 0) {
         if (!instance.configure_tx_txin()) return 1;
